@@ -293,10 +293,12 @@ Definition lb_etflag (v : lview) (ehours : list Z) : list (Z * Z) :=
    the same derivation as Model/Uamiv.v derive_end (no year roll-over on the YYJJJ date); the file header takes
    ibdate/btime of the first and iedate/etime of the last time record. When the input file has no _boundary_def
    (an in-memory file) the edge definitions are generated:
-   [icell,0,0,0] * (nbcell - 2) + [0,0,0,0] after the leading 0,0,0,0 with icell = 2 (WEST, SOUTH), NCOLS-1 (EAST),
-   NROWS-1 (NORTH). *)
+   ([0,0,0,0] + [icell,0,0,0] * (nbcell - 2) + [0,0,0,0])[:nbcell * 4] with icell = 2 (WEST, SOUTH), NCOLS-1 (EAST),
+   NROWS-1 (NORTH): exactly 4 words per boundary cell, also for a one-cell edge (as repaired by
+   fixes/C08-lb-edge-record-one-cell.patch; before, a one-cell edge got 8 cell words under a 28-byte marker). *)
 Definition std_edge (nb icell : Z) : list word :=
-  [0; 0; 0; 0] ++ concat (repeat [icell; 0; 0; 0] (Z.to_nat (nb - 2))) ++ [0; 0; 0; 0].
+  firstn (Z.to_nat (nb * 4))
+         ([0; 0; 0; 0] ++ concat (repeat [icell; 0; 0; 0] (Z.to_nat (nb - 2))) ++ [0; 0; 0; 0]).
 Definition std_edges (nx ny : Z) : quad :=
   Quad (std_edge ny 2) (std_edge ny (nx - 1)) (std_edge nx 2) (std_edge nx (ny - 1)).
 
